@@ -42,6 +42,13 @@ def std_finish(run, div, tot, rule, classify=None, level="model_checking", extra
                evaluations=tot["n"], distinct_nontrivial=len(run.groups), rule=rule, samples=sample_cases(run),
                groups=len(run.groups), variants=len(run.variants), divergences=len(div), violating_parses=nviol, suppressed_by_known_finding=kcount, known_finding_samples=ksamples,
                trusted_base=["Go toolchain", "TLC 1.8.0", "the harness printer/runner (lib/peg.py, runner/*.go)"])
+    n35 = sum(1 for h in tot.get("kfhits", []) if h.get("df") == "kf-F35")
+    if n35:
+        import findings as _f
+        k35 = "F35: " + _f.what("F35")
+        if k35 not in run.known:
+            run.known.append(k35)
+        kcount["F35"] = kcount.get("F35", 0) + n35
     cov["observation_classes"] = getattr(run, "stats", {})
     cov.update(run.cov)
     if "design_model" in run.cov:
@@ -2519,7 +2526,7 @@ def check_C18(tier, seed, replay=None):
     run.obs = [r_[0] for r_, v_ in zip(res, variants) if "uclass" not in v_.groups[0].tags]
     gp = os.path.join(P.workdir(), "groups.ndjson")
     dump_groups(groups, gp)
-    tcase = dict(inputs=inputs, options=options, lower=[[0, 0]], uclass=[[0]], cmp=dict(store=True, errs=True, ctx=False, norm=False), kf=["F21", "F2"], strict=[0])
+    tcase = dict(inputs=inputs, options=options, lower=[[0, 0]], uclass=[[0]], cmp=dict(store=True, errs=True, ctx=False, norm=False), kf=["F21", "F2", "F35"], strict=[0])
     div, tot = P.validate_t1(gp, tcase, run.obs, shards=12)       # the solo runs are what PegRef says
     ncmp, races = 0, 0
     for v, (solo, conc, serr, cerr, fail, npl) in zip(variants, res):
